@@ -236,6 +236,27 @@ func (s *vC07Sys) snap() map[string]any {
 	return map[string]any{"np": s.cm.NumPending(), "no": s.cm.NumOpen(), "p": p, "o": o}
 }
 
+// openNow / halfNow only bias the generator towards the interesting calls.
+func (s *vC07Sys) openNow() []CircuitKey {
+	var r []CircuitKey
+	for _, k := range s.univ {
+		if s.cm.LookupOpenCircuit(k) != nil {
+			r = append(r, k)
+		}
+	}
+	return r
+}
+
+func (s *vC07Sys) halfNow() []CircuitKey {
+	var r []CircuitKey
+	for _, k := range s.univ {
+		if c := s.cm.LookupCircuit(k); c != nil && c.Outgoing == nil {
+			r = append(r, k)
+		}
+	}
+	return r
+}
+
 func vC07Err(err error) int {
 	switch {
 	case err == nil:
@@ -670,6 +691,9 @@ func vC07Case(t *testing.T, out *vWriter, r *vrng, ci int) {
 			in := [][]uint64{}
 			for i := 0; i < n; i++ {
 				ks := Keystone{InKey: g.inKey(), OutKey: g.outKey(true)}
+				if hp := s.halfNow(); len(hp) > 0 && r.intn(10) < 6 {
+					ks.InKey = hp[r.intn(len(hp))]
+				}
 				if i > 0 && r.intn(12) == 0 {
 					ks.OutKey = kss[i-1].OutKey
 				}
@@ -701,11 +725,22 @@ func vC07Case(t *testing.T, out *vWriter, r *vrng, ci int) {
 			case 3:
 				st = uint64(r.intn(int(g.maxH) + 2))
 			}
+			if on := s.openNow(); len(on) > 0 && r.intn(10) < 6 {
+				k := on[r.intn(len(on))]
+				c = k.ChanID.ToUint64()
+				st = k.HtlcID
+				if r.intn(4) == 0 && st > 0 {
+					st--
+				}
+			}
 			th.what = "trim"
 			o := s.start(th, s.callFn("trim", [2]uint64{c, st}))
 			rec([]any{"call", th.id, "trim", c, st}, o)
 		case w < 76:
 			k := g.outKey(false)
+			if on := s.openNow(); len(on) > 0 && r.intn(10) < 6 {
+				k = on[r.intn(len(on))]
+			}
 			th.what = "close"
 			o := s.start(th, s.callFn("close", k))
 			rec([]any{"call", th.id, "close", k.ChanID.ToUint64(), k.HtlcID}, o)
